@@ -88,3 +88,35 @@ C[ISO + 'merge_isotopic_distributions'] = dict(
             ('nothing-at-unseen-masses', 'forall(lambda x=real: implies(not (x in merged_distribution), OUT(distributions, precision, _k0, x) + INN(distribution, precision, _k1, x) == 0))')],
     },
 )
+
+# ---------------------------------------------------------------- the convolution of two patterns (C14: the algebra behind "its abundance-weighted mean equals
+# the average mass"): without pruning (no isotope limit, no abundance threshold) the TOTAL abundance of the convolved pattern is the product of
+# the two totals -- every pair of peaks contributes its product, at whatever mass key it lands.  Finite sums over the peak dictionaries are
+# VS(d, S) (over the keys in S) / VT(d) (all keys), defined by empty / insert equations (A-FINSUM) + A-FINSUM-UPDATE for a store.
+ALIASES['Dist'] = 'Dict[real,real]'
+FUNCS.update({'VS': (['Dist', 'Set[real]'], 'real'), 'VT': (['Dist'], 'real')})
+AXIOMS += [
+    ('VS-empty', 'forall(lambda d=Dist: VS(d, set()) == 0)'),
+    ('VS-insert', 'forall(lambda d=Dist, S=Set[real], k=real: implies(not (k in S), VS(d, set_add(S, k)) == VS(d, S) + d[k]))'),
+    ('VT-def', 'forall(lambda d=Dist: VT(d) == VS(d, set(d)))'),
+    ('A-FINSUM-UPDATE/VT', 'forall(lambda d=Dist, k=real, x=real: VT(dict_set(d, k, x)) == VT(d) + (x - d.get(k, 0)))'),
+    # MS / MT: the mass-weighted sums (first moment): sum of key x value
+    ('MS-empty', 'forall(lambda d=Dist: MS(d, set()) == 0)'),
+    ('MS-insert', 'forall(lambda d=Dist, S=Set[real], k=real: implies(not (k in S), MS(d, set_add(S, k)) == MS(d, S) + k * d[k]))'),
+    ('MT-def', 'forall(lambda d=Dist: MT(d) == MS(d, set(d)))'),
+    ('A-FINSUM-UPDATE/MT', 'forall(lambda d=Dist, k=real, x=real: MT(dict_set(d, k, x)) == MT(d) + k * (x - d.get(k, 0)))'),
+]
+FUNCS.update({'MS': (['Dist', 'Set[real]'], 'real'), 'MT': (['Dist'], 'real')})
+C['peptacular.isotope:_convolve_distributions'] = dict(
+    params=dict(dist1='Dist', dist2='Dist', max_isotopes='Optional[int]', min_abundance_threshold='Optional[real]', distribution_resolution='Optional[int]'),
+    returns='Dist', pure=True, locals=dict(result='Dist'), axioms=['VS-empty', 'VS-insert', 'VT-def', 'A-FINSUM-UPDATE/VT', 'MS-empty', 'MS-insert', 'MT-def', 'A-FINSUM-UPDATE/MT'],
+    requires=[('no-pruning', 'max_isotopes is None and min_abundance_threshold is None'),
+              ('abundances-are-not-negative', 'forall(lambda k=real: implies(k in dist1, dist1[k] >= 0)) and forall(lambda k=real: implies(k in dist2, dist2[k] >= 0))')],
+    ensures=[('total-abundance-is-the-product-of-the-totals', 'VT(result) == VT(dist1) * VT(dist2)'),
+             # without rounding of the mass keys the first moments ADD: mean(result) = mean(dist1) + mean(dist2) after dividing by the totals
+             ('mass-weighted-sum-adds', 'implies(distribution_resolution is None, MT(result) == MT(dist1) * VT(dist2) + VT(dist1) * MT(dist2))')],
+    invariants={0: [('rows-so-far', 'VT(result) == VS(dist1, _seen0) * VT(dist2)'),
+                    ('moment-rows-so-far', 'implies(distribution_resolution is None, MT(result) == MS(dist1, _seen0) * VT(dist2) + VS(dist1, _seen0) * MT(dist2))')],
+                1: [('row-so-far', 'VT(result) == VT(result_at1) + abundance1 * VS(dist2, _seen1)'),
+                    ('moment-row-so-far', 'implies(distribution_resolution is None, MT(result) == MT(result_at1) + abundance1 * (mass1 * VS(dist2, _seen1) + MS(dist2, _seen1)))')]},
+)
